@@ -339,6 +339,7 @@ MAINLOOP:
 		}
 
 		newVal, parseErr := ws.Value(ctx, t)
+		verifAfterValue(ws)
 
 		configExists := !os.IsNotExist(parseErr)
 		if !configExists {
